@@ -345,6 +345,31 @@ func Generate(seed uint64, o Options) *Module {
 		}
 		g.renderPkg(m, p, decls)
 	}
+	// a package that reaches the declaring package only through a dot import (and a blank import of another one): the
+	// annotations of a dot-imported package apply like those of any direct import
+	if len(decls) > 0 && len(decls[0].types) > 0 {
+		t := decls[0].types[0]
+		var b []string
+		if t.kind == 0 {
+			b = []string{"p.X = 1 " + g.nextTag(), "p.X++ " + g.nextTag(), "p.Items[0] = 2 " + g.nextTag(), "_ = " + t.name + "{} " + g.nextTag(), "_ = new(" + t.name + ") " + g.nextTag(), "var z " + t.name + " " + g.nextTag(), "_ = z", "_ = []" + t.name + "{{X: 1}} " + g.nextTag()}
+			if t.tmeth {
+				b = append(b, "p.ResetForTest() "+g.nextTag())
+			}
+			if t.pmeth {
+				b = append(b, "p.Internal() "+g.nextTag())
+			}
+		} else {
+			b = []string{"*p = 1 " + g.nextTag(), "_ = new(" + t.name + ") " + g.nextTag(), "var z " + t.name + " " + g.nextTag(), "_ = z"}
+		}
+		for _, f := range decls[0].funcs {
+			b = append(b, "_ = "+f.name+"() "+g.nextTag())
+		}
+		imp := "import . \"" + decls[0].path + "\"\n"
+		if len(decls) > 1 {
+			imp += "import _ \"" + decls[1].path + "\"\n"
+		}
+		m.Files[strings.TrimPrefix(base+"/dotuser", "exp/")+"/du.go"] = "package dotuser\n\n" + imp + "\nfunc DotUse(p *" + t.name + ") {\n" + indent(b) + "}\n"
+	}
 	if twin {
 		// same bytes, same offsets: only the package clause and the directory differ (names of equal length)
 		d0dir := strings.TrimPrefix(decls[0].path, "exp/") + "/"
